@@ -147,11 +147,25 @@ def send_tensors(
     result = result.contiguous()
     world_size = dist.get_world_size(group)
 
-    # if the tensor is scalar, things are easy
-    if result.ndim == 0:
+    # ranks may disagree on the number of dimensions (e.g. a state that stays a 0-dim default until
+    # the first update): negotiate it first, so that every rank issues the same collectives
+    ndim = torch.tensor([result.ndim], device=result.device)
+    ndims = [int(n) for n in none_throws(_simple_send_tensors(ndim, world_size, group, None))]
+    max_ndim = max(ndims)
+
+    # if all tensors are scalar, things are easy
+    if max_ndim == 0:
         return _simple_send_tensors(result, world_size, group, rank=rank)
 
-    return _send_uneven_tensors(result, world_size, group, rank=rank)
+    # tensors with fewer dimensions travel with leading dimensions of size 1 ...
+    result = result.reshape((1,) * (max_ndim - result.ndim) + result.shape)
+    gathered_result = _send_uneven_tensors(result, world_size, group, rank=rank)
+    if gathered_result:
+        # ... and get their own shape back on receipt
+        for idx, item_ndim in enumerate(ndims):
+            item = gathered_result[idx]
+            gathered_result[idx] = item.reshape(item.shape[max_ndim - item_ndim :])
+    return gathered_result
 
 
 def metrics_traversal_order(
